@@ -18,52 +18,60 @@ VARIABLE l
 Init == l \in 1..Len(Rec)
 Next == UNCHANGED l
 
-Report(what, detail) ==
-  PrintT(<<"MISMATCH", ToJson([line |-> l, id |-> Rec[l].id, what |-> what, detail |-> detail, explained_by |-> {}])>>)
+Report(what, detail, devs) ==
+  PrintT(<<"MISMATCH", ToJson([line |-> l, id |-> Rec[l].id, what |-> what, detail |-> detail, explained_by |-> devs])>>)
 
 Live(p) == CASE p = "P" -> 901 [] p = "Q" -> 902 [] p = "U" -> 903 [] OTHER -> 904
 Cached(st, p) == IF p \in PC!Props THEN st.cache[p] ELSE PC!None      \* "R" does not exist
 Pos(evs, kind) == {i \in 1..Len(evs) : evs[i].k = kind}
+V(what, detail) == [what |-> what, detail |-> detail]
 
-Check(r) ==
-  IF r.ev = "Panic" THEN Report("panic", r.msg)
-  ELSE
+\* a foreign signal (other interface / sender / object) whose value shows up in the cache
+Foreign(evs, i, p, got) ==
+  \E j \in 1..i : /\ evs[j].k = "chg" /\ ~PC!Ours(evs[j])
+                   /\ evs[j].changed # <<>> /\ p \in DOMAIN evs[j].changed /\ evs[j].changed[p] = got
+
+(* The set of violated clauses of observation r when the cache is predicted by the fold with deviations devs. *)
+Viol(r, devs) ==
   LET evs == r.evs
       n == Len(evs)
-      final == PC!Fold(evs, n)
-      readyAt == Pos(evs, "ready")
-      replyAt == Pos(evs, "reply")
+      final == PC!FoldD(evs, n, devs)
       streamsAt == Pos(evs, "streams")
+      Want(p) == IF Cached(final, p) # PC!None THEN Cached(final, p) ELSE Live(p)
   IN
   \* readiness: reported exactly when the snapshot has been received (at the next quiescent point)
-  /\ (final.ready = r.ready \/ Report("ready", [expected |-> final.ready, got |-> r.ready, err |-> r.ready_err]))
-  /\ \A i \in readyAt : (PC!Fold(evs, i).ready \/ Report("ready-before-snapshot", i))
+  (IF final.ready = r.ready THEN {} ELSE {V("ready", [expected |-> final.ready, got |-> r.ready, err |-> r.ready_err])})
+  \cup {V("ready-before-snapshot", i) : i \in {j \in Pos(evs, "ready") : ~PC!FoldD(evs, j, devs).ready}}
   \* the cache at every quiescent point after ready
-  /\ \A i \in Pos(evs, "obs") :
-       LET st == PC!Fold(evs, i) IN
-       \A p \in DOMAIN evs[i].cached :
-         \/ evs[i].cached[p] = Cached(st, p)
-         \/ Report(IF p \in PC!Uncached THEN "uncached-property-cached"
-                   ELSE IF \E j \in 1..i : evs[j].k = "chg" /\ ~PC!Ours(evs[j]) /\ p \in (DOMAIN evs[j].changed) \cup PC!InvalSet(evs[j].inval)
-                                          /\ Cached(st, p) # evs[i].cached[p]
-                                          /\ (evs[j].changed # <<>> /\ p \in DOMAIN evs[j].changed /\ evs[j].changed[p] = evs[i].cached[p])
-                        THEN "foreign-signal-applied"
-                   ELSE "cache-value",
-                   [at |-> i, prop |-> p, expected |-> Cached(st, p), got |-> evs[i].cached[p]])
+  \cup UNION {
+       LET st == PC!FoldD(evs, i, devs) IN
+       {V(IF p \in PC!Uncached THEN "uncached-property-cached"
+          ELSE IF Foreign(evs, i, p, evs[i].cached[p]) THEN "foreign-signal-applied" ELSE "cache-value",
+          [at |-> i, prop |-> p, expected |-> Cached(st, p), got |-> evs[i].cached[p]])
+        : p \in {q \in DOMAIN evs[i].cached : evs[i].cached[q] # Cached(st, q)}}
+     : i \in Pos(evs, "obs")}
+  \* the value PropertyChanged::get returned is the one the service sent
+  \cup {V("fetched-value", [at |-> i, got |-> evs[i].val])
+        : i \in {j \in Pos(evs, "fetched") : ~\E k \in 1..j : evs[k].k = "getreply" /\ evs[k].val = evs[j].val}}
   \* get_property: the cached value, else the live value fetched from the service
-  /\ \A p \in DOMAIN r.gets :
-       LET want == IF Cached(final, p) # PC!None THEN Cached(final, p) ELSE Live(p) IN
-       \/ ~r.ready \/ r.gets[p].val = want
-       \/ Report("get-property", [prop |-> p, expected |-> want, got |-> r.gets[p]])
+  \cup (IF ~r.ready THEN {} ELSE
+        {V("get-property", [prop |-> p, expected |-> Want(p), got |-> r.gets[p]]) : p \in {q \in DOMAIN r.gets : r.gets[q].val # Want(q)}})
   \* property streams: every reported value is the latest; a value that differs from the one at stream creation is reported
-  /\ \A p \in DOMAIN r.streams :
+  \cup UNION {
        LET items == r.streams[p]
-           want == IF Cached(final, p) # PC!None THEN Cached(final, p) ELSE Live(p)
-           atCreate == IF streamsAt = {} THEN PC!None ELSE Cached(PC!Fold(evs, CHOOSE i \in streamsAt : TRUE), p)
-       IN
-       /\ \A k \in 1..Len(items) : (items[k] = want \/ Report("stream-stale-value", [prop |-> p, expected |-> want, got |-> items]))
-       /\ (~r.ready \/ streamsAt = {} \/ Len(items) >= 1 \/ (Cached(final, p) = atCreate /\ atCreate = PC!None)
-             \/ Report("stream-missed-change", [prop |-> p, latest |-> Cached(final, p), at_creation |-> atCreate]))
+           atCreate == IF streamsAt = {} THEN PC!None ELSE Cached(PC!FoldD(evs, CHOOSE i \in streamsAt : TRUE, devs), p)
+       IN (IF \E k \in 1..Len(items) : items[k] # Want(p)
+           THEN {V("stream-stale-value", [prop |-> p, expected |-> Want(p), got |-> items])} ELSE {})
+          \cup (IF r.ready /\ streamsAt # {} /\ Len(items) = 0 /\ Cached(final, p) # atCreate /\ Pos(evs, "fetch") = {}
+                THEN {V("stream-missed-change", [prop |-> p, latest |-> Cached(final, p), at_creation |-> atCreate])} ELSE {})
+     : p \in DOMAIN r.streams}
+
+Check(r) ==
+  IF r.ev = "Panic" THEN Report("panic", r.msg, {})
+  ELSE LET v0 == Viol(r, {}) IN
+       IF v0 = {} THEN TRUE
+       ELSE LET expl == {d \in PC!KnownDevs : Viol(r, {d}) = {}} IN
+            \A v \in v0 : Report(v.what, v.detail, expl)
 
 Inv == Check(Rec[l]) \/ TRUE
 =============================================================================
